@@ -825,9 +825,9 @@ def check_c19(rep):
         stats.append({"refinement": "PackAlgo/TraceAlgo = PackSpec/TraceSpec", "n": rn, "t": rt, "states": r["distinct"]})
         rep.cov["states"] = rep.cov.get("states", 0) + r["distinct"]
         rep.cov["transitions"] = rep.cov.get("transitions", 0) + r["generated"]
-    psets = ["bfv_8_17_40,40,40", "bgv_8_17_40,40,40", "ckks_8_0_45,45,45", "bfv_4_17_40,40", "bfv_16_97_40,40,40"]
+    psets = ["bfv_8_17_40,40,40", "bgv_8_17_40,40,40", "ckks_8_0_45,45,45", "bfv_4_17_40,40", "bfv_16_97_40,40,40", "bgv_32_193_45,45,45"]
     if not quick:
-        psets += ["bgv_16_97_40,40,40", "ckks_16_0_45,45,45", "bgv_4_17_40,40", "ckks_4_0_45,45", "bfv_32_193_45,45,45", "bgv_32_193_45,45,45"]
+        psets += ["bgv_16_97_40,40,40", "ckks_16_0_45,45,45", "bgv_4_17_40,40", "ckks_4_0_45,45", "bfv_32_193_45,45,45", "ckks_32_0_45,45,45", "bfv_64_257_45,45,45"]
     raw = []
     for ps in psets:
         raw += hcv(["c19", ps, str(rep.seed), rep.tier], timeout=900).splitlines()
